@@ -188,7 +188,8 @@ func readCurrentRegex(filePath string, ruleId string, chainOffset uint8) string 
 
 	lines := bytes.Split(contents, []byte("\n"))
 
-	idRegex := regexp.MustCompile(fmt.Sprintf("id:%s", ruleId))
+	// the id action of the rule, not a mention of it in a comment
+	idRegex := regexp.MustCompile(fmt.Sprintf("^[^#]*id:%s", ruleId))
 	index := 0
 	var line []byte
 	foundRule := false
